@@ -113,43 +113,44 @@ type RunStats struct {
 }
 
 type Exec struct {
-	eng      *Engine
-	tc       *TermCtx
-	sol      *Solver
-	harness  string
-	prefix   []uint64
-	pos      int
-	decs     []uint64   // full decision vector of this run
-	alts     [][]uint64 // new prefixes discovered
-	pc       []*Term
-	known    map[*Term]bool
-	inputs   []InputRec
-	notes    []string
-	viol     []Violation
-	stats    RunStats
-	globals  map[*ssa.Global]*Value
-	pkgInit  map[*ssa.Package]int // 0 none, 1 running, 2 done
-	emptyStr *StrV
-	strCache map[string]*StrV
-	constMem map[*ssa.Const]Value
-	effects  int64 // counter of side effects / decisions, for the lasso detector
-	depth    int
-	funcs    map[string]bool // functions executed (qualified names)
-	stubHits map[string]int
-	clock    *Term // virtual clock (ns)
-	clockSeq int
-	nameSeq  map[string]int
-	rng      uint64
-	errType  types.Type
-	threads  *scheduler
-	cur      *thread
-	extra    map[string]interface{}
-	mapOrder string
-	tolerant int // >0 while executing package initialisers
-	goMode   string
-	pending  []func()
-	heapSeq  int
-	curFn    *ssa.Function
+	eng       *Engine
+	tc        *TermCtx
+	sol       *Solver
+	harness   string
+	prefix    []uint64
+	pos       int
+	decs      []uint64   // full decision vector of this run
+	alts      [][]uint64 // new prefixes discovered
+	pc        []*Term
+	known     map[*Term]bool
+	inputs    []InputRec
+	notes     []string
+	viol      []Violation
+	stats     RunStats
+	globals   map[*ssa.Global]*Value
+	pkgInit   map[*ssa.Package]int // 0 none, 1 running, 2 done
+	emptyStr  *StrV
+	strCache  map[string]*StrV
+	constMem  map[*ssa.Const]Value
+	effects   int64 // counter of side effects / decisions, for the lasso detector
+	depth     int
+	funcs     map[string]bool // functions executed (qualified names)
+	stubHits  map[string]int
+	clock     *Term // virtual clock (ns)
+	clockSeq  int
+	nameSeq   map[string]int
+	rng       uint64
+	errType   types.Type
+	threads   *scheduler
+	cur       *thread
+	extra     map[string]interface{}
+	mapOrder  string
+	tolerant  int // >0 while executing package initialisers
+	goMode    string
+	pending   []func()
+	heapSeq   int
+	curFn     *ssa.Function
+	inPending int
 }
 
 func NewExec(eng *Engine, sol *Solver, harness string, prefix []uint64) *Exec {
@@ -818,6 +819,11 @@ func (fr *frame) checkLoop() {
 		fr.lasso = make(map[int]lassoRec)
 	}
 	bi := fr.block.Index
+	if fr.prevBlock == nil || !fr.block.Dominates(fr.prevBlock) {
+		// fresh entry into the loop (not through its back edge): start counting anew
+		fr.visits[bi] = 0
+		delete(fr.lasso, bi)
+	}
 	fr.visits[bi]++
 	// lasso: same phi values, no effect since last visit
 	var phis []Value
@@ -1134,6 +1140,7 @@ func (fr *frame) visit(instr ssa.Instruction) continuation {
 	case *ssa.Range:
 		fr.set(in, ex.rangeIter(fr.get(in.X), in.X.Type()))
 	case *ssa.Next:
+		ex.effect() // advances hidden iterator state
 		fr.set(in, fr.get(in.Iter).(iterator).next(ex))
 	case *ssa.FieldAddr:
 		p, _ := fr.get(in.X).(*Value)
@@ -1223,12 +1230,31 @@ func (ex *Exec) spawn(fr *frame, fn Value, args []Value) {
 	}
 }
 
+// runPending runs the goroutines queued in "defer" mode. A goroutine that blocks (vpWaitUntil with a false
+// condition before it had any effect) is put back and retried on the next call.
 func (ex *Exec) runPending() {
+	var blocked []func()
 	for len(ex.pending) > 0 {
 		f := ex.pending[0]
 		ex.pending = ex.pending[1:]
-		f()
+		func() {
+			ex.inPending++
+			saveDepth := ex.depth
+			defer func() {
+				ex.inPending--
+				if r := recover(); r != nil {
+					if _, ok := r.(goBlocked); ok {
+						ex.depth = saveDepth
+						blocked = append(blocked, f)
+						return
+					}
+					panic(r)
+				}
+			}()
+			f()
+		}()
 	}
+	ex.pending = blocked
 }
 
 // ---------------------------------------------------------------- slices & indexing
